@@ -41,6 +41,10 @@ namespace pgm {
 template<typename K, typename V, typename PGMType = PGMIndex<K, 16>>
 class DynamicPGMIndex {
     class ItemA;
+#ifdef PGM_INDEX_VERIF
+    friend struct ::pgm::verif::Access;
+#endif
+
     class ItemB;
     class Iterator;
 
@@ -471,6 +475,10 @@ namespace internal {
 template<typename T>
 class LoserTree {
     using Source = uint8_t;
+#ifdef PGM_INDEX_VERIF
+    friend struct ::pgm::verif::Access;
+#endif
+
 
     struct Loser {
         T key;         ///< Copy of the current key in the sequence.
@@ -550,6 +558,10 @@ public:
 template<typename K, typename V, typename PGMType>
 class DynamicPGMIndex<K, V, PGMType>::Iterator {
     friend class DynamicPGMIndex;
+#ifdef PGM_INDEX_VERIF
+    friend struct ::pgm::verif::Access;
+#endif
+
 
     using level_iterator = typename Level::const_iterator;
     using dynamic_pgm_type = DynamicPGMIndex<K, V, PGMType>;
